@@ -569,6 +569,7 @@ func runC12(t *simrt.Tape, o Opts) Outcome {
 		}()
 		switch c12Ops[op] {
 		case "New", "CreateRandom":
+			fin0 := s.Finalizers()
 			arm()
 			var sec securememory.Secret
 			var err error
@@ -602,6 +603,40 @@ func runC12(t *simrt.Tape, o Opts) Outcome {
 				checkNoRemains("creation")
 				if c12Ops[op] == "New" {
 					checkWipedBeforeUnlock()
+				}
+				// The secret of the failed creation was never handed out, so it is garbage: whenever the
+				// collector gets to it, its finalizer runs. By then its address range may belong to a
+				// secret created later - which must not notice.
+				if fin1 := s.Finalizers(); fin1 > fin0 && len(viols) == 0 {
+					count(st.Oracle, "finalizer-of-failed-creation")
+					nextSrc := make([]byte, size)
+					rnd.Fill(nextSrc)
+					nextWant := append([]byte(nil), nextSrc...)
+					regions0 := len(im.spy.Regions)
+					next, nerr := im.factory.New(nextSrc)
+					if nerr == nil {
+						reused := false
+						for _, r := range im.spy.Regions[regions0:] {
+							for _, old := range im.spy.Regions[firstRegion:regions0] {
+								if r.Addr == old.Addr {
+									reused = true
+								}
+							}
+						}
+						if reused {
+							s.Probe("c12.address-reused-after-failed-creation")
+						}
+						ran := s.RunFinalizers(fin0, fin1)
+						s.Idle()
+						if ran > 0 {
+							var got []byte
+							rerr := next.WithBytes(func(b []byte) error { got = append([]byte(nil), b...); return nil })
+							if rerr != nil || !bytes.Equal(got, nextWant) {
+								violate("stale-finalizer-hits-another-secret/"+im.name+"/"+c12Ops[op], "%s: the creation failed and released its pages, but the abandoned secret kept its finalizer; when it ran, a secret created afterwards at the same address was damaged (read error: %v, bytes intact: %v)", desc(), rerr, bytes.Equal(got, nextWant))
+							}
+						}
+						next.Close()
+					}
 				}
 			}
 			count(st.Oracle, "inuse-balanced")
